@@ -47,10 +47,12 @@ def gen_file(rng):
         extra.append("p%g" % t)
     for q in rng.sample([0.1, 0.25, 0.5, 0.9], rng.randint(0, 2)):
         extra.append("q%g" % q)
-    for m in range(rng.choice([0, 0, 2, 3])):
+    nmem_ = rng.choice([0, 0, 2, 3])
+    numbering_ = rng.choice([list(range(nmem_)), list(range(1, nmem_ + 1)), sorted(rng.sample(range(0, 12), nmem_))])      # members need not be numbered from 0
+    for m in numbering_:
         extra.append("e%d" % m)
     if rng.random() < 0.3:
-        extra.append(rng.choice(["crps", "mae", "elevation"]))
+        extra.append(rng.choice(["crps", "mae", "elevation", "RMSE", "T2m", "dewPoint"]))                                  # names are case sensitive
     if rng.random() < 0.12 and any(c[0] in "pq" and c != "pit" for c in extra):
         cols = []                      # a purely probabilistic file: neither obs nor fcst (the header check accepts p* / q* columns)
     cols += extra
